@@ -194,8 +194,18 @@ def run_scenarios(ctx: Ctx, scenarios: List[dict]) -> None:
 def run(ctx: Ctx) -> None:
     rng = random.Random(ctx.seed * 7919 + 15)
     run_scenarios(ctx, [gen_c15(rng, 'c15-%d' % k, ctx.thorough) for k in range(ctx.pick(120, 3000))])
+    # the datagram front end on its own (Listener.tla): undecodable datagrams between well-formed ones at gaps below and above one
+    # second; every well-formed query that is not a duplicate must still be handed to the query handler (C15_QueryHandedOn), the
+    # handler is never called with nothing (C15_EmptyAssembly), nothing raises
+    from props import listenermodel
+    listenermodel.run(ctx, 'C15')
 
 
 def replay(ctx: Ctx, path: str) -> None:
     import json
-    run_scenarios(ctx, [json.load(open(path))['replay']['scenario']])
+    rep = json.load(open(path))['replay']
+    if 'listener_history' in rep:
+        from props import listenermodel
+        listenermodel.run(ctx, 'C15', [dict(rep['listener_history'], id='listener-replay')])
+        return
+    run_scenarios(ctx, [rep['scenario']])
